@@ -30,6 +30,8 @@ pub enum Op {
     InsB,
     InsAB,
     InsAA,
+    /// in-batch duplicate that is not adjacent
+    InsABA,
     DelA,
     DelB,
     DelAB,
@@ -47,6 +49,7 @@ pub fn op_name(o: Op) -> &'static str {
         Op::InsB => "ins b",
         Op::InsAB => "ins [a,b]",
         Op::InsAA => "ins [a,a]",
+        Op::InsABA => "ins [a,b,a]",
         Op::DelA => "del a",
         Op::DelB => "del b",
         Op::DelAB => "del [a,b]",
@@ -116,6 +119,7 @@ impl Store {
             Op::InsB => self.eng().insert_tuples_into(KG, "r", vec![tb()]).map(|_| ()).map_err(e),
             Op::InsAB => self.eng().insert_tuples_into(KG, "r", vec![ta(), tb()]).map(|_| ()).map_err(e),
             Op::InsAA => self.eng().insert_tuples_into(KG, "r", vec![ta(), ta()]).map(|_| ()).map_err(e),
+            Op::InsABA => self.eng().insert_tuples_into(KG, "r", vec![ta(), tb(), ta()]).map(|_| ()).map_err(e),
             Op::DelA => self.eng().delete_tuples_from(KG, "r", vec![ta()]).map(|_| ()).map_err(e),
             Op::DelB => self.eng().delete_tuples_from(KG, "r", vec![tb()]).map(|_| ()).map_err(e),
             Op::DelAB => self.eng().delete_tuples_from(KG, "r", vec![ta(), tb()]).map(|_| ()).map_err(e),
@@ -133,7 +137,7 @@ pub fn model_step(m: u8, o: Op) -> u8 {
     match o {
         Op::InsA | Op::InsAA => m | 1,
         Op::InsB => m | 2,
-        Op::InsAB => m | 3,
+        Op::InsAB | Op::InsABA => m | 3,
         Op::DelA => m & !1,
         Op::DelB => m & !2,
         Op::DelAB => m & !3,
@@ -187,9 +191,9 @@ fn log_sum(h: &[Op], bit: u8) -> i64 {
     for o in h {
         s += match (o, bit) {
             (Op::InsA, 1) | (Op::InsAB, 1) => 1,
-            (Op::InsAA, 1) => 2,
+            (Op::InsAA, 1) | (Op::InsABA, 1) => 2,
             (Op::DelA, 1) | (Op::DelAB, 1) => -1,
-            (Op::InsB, 2) | (Op::InsAB, 2) => 1,
+            (Op::InsB, 2) | (Op::InsAB, 2) | (Op::InsABA, 2) => 1,
             (Op::DelB, 2) | (Op::DelAB, 2) => -1,
             (Op::InsA2, 4) => 1,
             (Op::DelA2, 4) => -1,
@@ -277,13 +281,13 @@ pub fn c11(args: &Args) -> i32 {
     }
     let run = Run::new(args, "model_checking", 50.0, 1500.0);
     let alpha: Vec<Op> = if run.quick() {
-        vec![Op::InsA, Op::InsB, Op::InsAB, Op::InsAA, Op::DelA, Op::DelB, Op::DelAB, Op::Save, Op::Compact, Op::Restart]
+        vec![Op::InsA, Op::InsB, Op::InsAB, Op::InsAA, Op::InsABA, Op::DelA, Op::DelB, Op::DelAB, Op::Save, Op::Compact, Op::Restart]
     } else {
-        vec![Op::InsA, Op::InsB, Op::InsAB, Op::InsAA, Op::DelA, Op::DelB, Op::DelAB, Op::Save, Op::Compact, Op::Restart, Op::InsA2, Op::DelA2]
+        vec![Op::InsA, Op::InsB, Op::InsAB, Op::InsAA, Op::InsABA, Op::DelA, Op::DelB, Op::DelAB, Op::Save, Op::Compact, Op::Restart, Op::InsA2, Op::DelA2]
     };
     let max_len = if run.quick() { 4 } else { 5 };
     let cfg = StoreCfg { buffer: 10000, dur: 0, max_wal: None };
-    run.set_rule("all operation sequences (shortlex) up to the depth bound over the alphabet {ins a, ins b, ins [a,b], ins [a,a], del a, del b, del [a,b], save, compact, restart} (+second relation in thorough), each executed from a fresh real StorageEngine on tmpfs, plus a final restart; after every step the served relation contents are compared with the set model, at every restart with the contents served just before. non-trivial = histories containing at least one write; states = distinct (model state, position) pairs reached");
+    run.set_rule("all operation sequences (shortlex) up to the depth bound over the alphabet {ins a, ins b, ins [a,b], ins [a,a], ins [a,b,a], del a, del b, del [a,b], save, compact, restart} (+second relation in thorough), each executed from a fresh real StorageEngine on tmpfs, plus a final restart; after every step the served relation contents are compared with the set model, at every restart with the contents served just before. non-trivial = histories containing at least one write; states = distinct (model state, position) pairs reached");
     run.assume("immediate durability, clean shutdown; tmpfs behaves like a file system for non-crash runs");
     let mut total_states: BTreeSet<(u8, usize)> = BTreeSet::new();
     let mut completed_depth = 0;
